@@ -8,6 +8,11 @@ M = "gotranx.ode."
 X = "gotranx.expressions."
 T = "gotranx.sympytools."
 U = "gotranx.cli.utils."
+G = "gotranx.cli."
+PP = "gotranx.codegen.python.GotranPythonCodePrinter."
+OP = "gotranx.codegen.ode.BaseGotranODECodePrinter."
+TP, TJ, TC = "gotranx.templates.python.", "gotranx.templates.jax.", "gotranx.templates.c."
+PYG, CG = "gotranx.codegen.python.PythonCodeGenerator.", "gotranx.codegen.c.CCodeGenerator."
 
 ACCESSORS = [O + "states", O + "parameters", O + "state_derivatives", O + "intermediates"]
 SORTED = [M + "sort_assignments", O + "sorted_assignments", O + "sorted_state_derivatives", O + "sorted_states"]
@@ -15,29 +20,42 @@ UNPACK = [B + "_state_assignments", B + "_parameter_assignments", B + "_missing_
 INDEX = [B + "state_index", B + "parameter_index", B + "monitor_index", B + "missing_index",
          B + "initial_state_values", B + "initial_parameter_values"]
 SCHEMES = [S + "explicit_euler", S + "generalized_rush_larsen", S + "hybrid_rush_larsen"]
+EXPR = [X + "relational_to_piecewise", X + "binary_op", X + "unary_op", X + "build_expression.expr2symbols",
+        T + "Conditional", T + "ContinuousConditional"]
+PY_PRINT = [PP + n for n in ("_print_And", "_print_Or", "_print_Not", "_print_sign", "_print_Equality", "_print_Piecewise", "_print_Float")]
+ODE_PRINT = [OP + n for n in ("_print_Relational", "_print_And", "_print_Or", "_print_Exp1", "_print_Piecewise")]
+PY_TMPL = [TP + n for n in ("state_index", "parameter_index", "monitor_index", "missing_index", "init_state_values",
+                            "init_parameter_values", "method")]
+C_TMPL = [TC + n for n in ("state_index", "parameter_index", "monitor_index", "missing_index", "method")]
+ARGS = [PYG + "_rhs_arguments", PYG + "_scheme_arguments", CG + "_rhs_arguments", CG + "_scheme_arguments"]
 
 PROPS = {
-    "C01": dict(
-        functions=[X + "relational_to_piecewise", X + "binary_op", X + "unary_op", X + "build_expression.expr2symbols",
-                   T + "Conditional", T + "ContinuousConditional", B + "rhs"] + SORTED + UNPACK,
-        lemmas=L.L1,
-        explanation="reference meaning T of the expression grammar proved against build_expression; emission of rhs proved against rhs_emit",
-    ),
-    "C04": dict(functions=INDEX + [B + "rhs", B + "monitor_values", B + "scheme"] + SCHEMES + SORTED + ACCESSORS + UNPACK,
-                lemmas=L.L1 + L.STAB),
+    "C01": dict(functions=EXPR + [B + "rhs"] + SORTED + UNPACK + PY_PRINT + [TP + "method"], lemmas=L.L1),
+    "C02": dict(functions=[CG + "_rhs_arguments", CG + "_scheme_arguments", G + "gotran2c.get_code", B + "rhs", B + "monitor_values",
+                           PP + "_print_Float"] + C_TMPL, lemmas=[]),
+    "C03": dict(functions=[B + "monitor_values", B + "missing_values", B + "rhs", B + "scheme", TJ + "method",
+                           PP + "_print_And", PP + "_print_Or", PP + "_print_Not", PP + "_print_sign"], lemmas=L.C13L),
+    "C04": dict(functions=INDEX + [B + "rhs", B + "monitor_values", B + "scheme"] + SCHEMES + SORTED + ACCESSORS + UNPACK + ARGS
+                + PY_TMPL + C_TMPL + [TJ + "method", T + "states_matrix"], lemmas=L.L1 + L.STAB),
     "C05": dict(functions=[S + "explicit_euler", S + "get_scheme", B + "scheme", U + "add_schemes"] + UNPACK, lemmas=L.L1),
-    "C06": dict(functions=[S + "generalized_rush_larsen", T + "Conditional", S + "get_scheme", B + "scheme", U + "add_schemes"],
-                lemmas=[]),
+    "C06": dict(functions=[S + "generalized_rush_larsen", S + "fraction_numerator_is_nonzero", T + "Conditional", S + "get_scheme",
+                           B + "scheme", U + "add_schemes"], lemmas=L.STAB + L.C06L),
     "C07": dict(functions=[S + "hybrid_rush_larsen", S + "generalized_rush_larsen", S + "explicit_euler", S + "get_scheme",
                            U + "add_schemes", B + "scheme"], lemmas=[]),
     "C09": dict(functions=[M + "sort_assignments", O + "sorted_assignments", O + "missing_variables", S + "get_scheme"] + ACCESSORS,
                 lemmas=[]),
+    "C11": dict(functions=ODE_PRINT, lemmas=[]),
     "C12": dict(functions=[O + "sorted_assignments", O + "dependents", B + "__init__", B + "_state_assignments",
-                           B + "_parameter_assignments", B + "rhs", B + "scheme"] + SCHEMES,
-                lemmas=L.STAB + L.C12L),
+                           B + "_parameter_assignments", B + "rhs", B + "scheme", B + "missing_values"] + SCHEMES,
+                lemmas=L.STAB + L.C12L + L.C13L),
     "C13": dict(functions=[O + "missing_variables", O + "dependents", B + "missing_index", B + "_missing_variables_assignments",
-                           B + "rhs", B + "monitor_values", B + "scheme"], lemmas=[]),
+                           B + "missing_values", B + "rhs", B + "monitor_values", B + "scheme", TP + "missing_index", TC + "missing_index"],
+                lemmas=L.C13L),
+    "C14": dict(functions=PY_PRINT + [B + "_shape_info", TP + "method"], lemmas=[]),
     "C16": dict(functions=["gotranx.atoms.remove_singularities", T + "Conditional"], lemmas=L.STAB + L.C16L),
+    "C17": dict(functions=["gotranx.transformer.get_unit_and_comment_from_assignment"], lemmas=[]),
+    "C18": dict(functions=[G + "ode2py", G + "ode2c", G + "convert", G + "gotran2py.main", G + "gotran2c.main",
+                           G + "gotran2py.get_code", G + "gotran2c.get_code", U + "add_schemes", U + "validate_scheme"], lemmas=[]),
     "C20": dict(functions=[T + "states_matrix", T + "rhs_matrix", T + "jacobi_matrix", O + "sorted_states",
                            O + "sorted_state_derivatives"], lemmas=L.L1),
 }
